@@ -14,11 +14,12 @@ import e2e
 import impl
 import progspace
 
-LEAN_TARGETS = ["CM.Props.Lift", "CM.Props.C16", "CM.Props.PrecIdem", "CM.Props.C02ScopeIdem"]
+LEAN_TARGETS = ["CM.Props.Lift", "CM.Props.C16", "CM.Props.PrecIdem", "CM.Props.C02ScopeIdem", "CM.Props.C16Idem"]
 THEOREMS = [
     "CM.Pipeline.C07_second_application_noop",
     "CM.Pipeline.C03_write_iff_changeset",
     "CM.Args.C07_replaceArgs_idem_single",
+    "CM.Args.C07_replaceArgs_idem",
     "CM.Args.C16_replaceArgs_others",
     "CM.Prec.C07_combine_idempotent",
     "CM.Prec.C07_invert_idempotent",
@@ -39,7 +40,8 @@ LEVEL_TEXT = (
     "Lean 4 theorems: (lifting) if a codemod's transformer reports nothing on text it produced (contract Idem), then processing the "
     "written file again yields no changeset and no write, whatever findings are passed (C07_second_application_noop, using the gates "
     "'no changes => no changeset' and 'empty diff => no changeset'); (mechanism) the shared argument editor is a fixed point on its own "
-    "output (C07_replaceArgs_idem_single); (expression rewrites, CM.Prec) the combine pass reaches a normal form in one application "
+    "output (C07_replaceArgs_idem_single for one specification and any call; C07_replaceArgs_idem for any specification list with pairwise "
+    "different names on calls with pairwise different keywords, through a fixed-point criterion replaceArgs_fixed); (expression rewrites, CM.Prec) the combine pass reaches a normal form in one application "
     "on every tree (C07_combine_idempotent) and so does the invert pass (C07_invert_idempotent; before a fix `not (<comparison> is True)` "
     "became `not <comparison>`, which the second run flipped: C07_invert_old_second_pass_changes); (clean-up pass, CM.Scope) the "
     "unused-assignment clean-up with libcst's reference attribution removes nothing on its own output (C07_clean_idempotent). The argument editor is tied to the code by running the real replace_args twice; the contract "
